@@ -276,8 +276,8 @@ def generate(rng, n, tier, pid):
                               (3, "rd"), (1, "cl"), (1, "fl"), (1, "ec"), (1, "ta"), (1, "sa"),
                               (3 if multi else 0, "cn"), (2 if multi else 0, "tk"), (2 if multi else 0, "dr"), (1 if multi else 0, "new")])
             if k == "an" and rng.chance(1, 3):
-                # a short read: the reader holds fewer bytes than read_n is asked for
-                b = rand_bytes(rng)
+                # a short read: the reader holds fewer bytes than read_n is asked for (sometimes none at all)
+                b = rand_bytes(rng) if rng.chance(3, 4) else []
                 toks.append(f"@{i}:an:{hexs(b)}:{len(b) + rng.choice([1, 5, 100, 3000, 5000])}")
             elif k in ("pc", "pu", "pb", "an"):
                 toks.append(f"@{i}:{k}:{hexs(rand_bytes(rng))}")
